@@ -256,6 +256,8 @@ pub enum MismatchKind {
     OutDim(usize, usize),
     Value { row: usize },
     ImplError(String),
+    /// the reference side is itself a snapshot of a real tree (e.g. the unpruned track) and cannot be evaluated
+    RefError(String),
 }
 
 #[derive(Clone, Debug)]
@@ -351,7 +353,14 @@ pub fn explore(
         guards.clear();
         stats.evals += 1;
         let a = imp.eval(&face.w, &mut guards);
-        let b = rf.eval(&face.w, &mut guards).expect("reference evaluator failed");
+        let b = match rf.eval(&face.w, &mut guards) {
+            Ok(b) => b,
+            Err(e) => {
+                mismatches.push(Mismatch { kind: MismatchKind::RefError(e), point: face.w.clone(), face, impl_map: None, ref_map: None });
+                complete = false;
+                break;
+            }
+        };
         // find a guard that changes sign on the face
         let gs: Vec<Form> = guards.drain(..).collect();
         for g in gs.iter() {
